@@ -21,7 +21,7 @@ ASSUMPTIONS = ["the word 'and' does not occur as a name word (the C13 alphabet h
 MIN = {"function_inverse": (50000, 500000), "document_inverse": (3000, 60000)}
 
 ALPHA = [t for t in c13.ALPHA if t not in ("{", "}")]
-WORDS = [w for w in c13.WORDS if w not in ("x\\", "\\")]
+WORDS = [w for w in c13.WORDS if w not in ("x\\", "\\")] + ["\u00a0Dupont", "Jean\u00a0", "\u3000太郎", "a\u2007b", "\x0bV"]
 
 
 def _L(tier):
